@@ -69,6 +69,9 @@ var optionWords = map[string][]string{
 // commands whose first argument is not a key name get the whole alphabet in that position
 var nonKeyFirst = map[string]bool{"select": true, "ping": true, "keys": true, "rconf": true, "member": true, "publish": true, "subscribe": true}
 
+// patterns aimed at the glob matcher's index arithmetic (the keyspace holds keys of several lengths)
+var globHostile = []string{"*\\", "h*\\", "**\\", "?*\\", "\\", "k\\", "[", "[a-", "[^", "*[", "k[", "[\\", "[]", "[a-]", "[]-a]", "*?", "*??*", "*[a-", "k*[^", "?\\", "*\\\\", "[[]", "*]", "*k*\\"}
+
 var common5 = []string{"", "0", "-1", "a", "9223372036854775807"}
 
 // keys of every type present in the preset keyspace
@@ -132,6 +135,9 @@ func enumerate(name string, thorough bool, f func(argv []string)) {
 			choices = presetKeys
 			if nonKeyFirst[name] {
 				choices = append(append([]string{}, presetKeys...), alphabet...)
+			}
+			if name == "keys" {
+				choices = append(choices, globHostile...)
 			}
 		case depth == 1 || (thorough && depth == 2):
 			choices = alphabet
